@@ -636,10 +636,16 @@ BUILDERS = {"lut_mixed": lut_mixed, "shape_out": shape_out, "transpose_perm": tr
             "fc1_two_core": fc1_two_core}
 
 
-def build(rng, idx, pattern, variant=None):
-    if pattern not in BUILDERS:
-        # round-5 families live in their own modules
-        import gen_multiout
+# pattern -> (module, builder) of the families defined outside this file
+EXTERNAL = {"near_scale": ("gen_nearscale", "near_scale"), "multi_out_cpu": ("gen_multiout", "multi_out_cpu"),
+            "slice_masks": ("gen_ssmask", "slice_masks")}
 
-        BUILDERS.update({"multi_out_cpu": gen_multiout.multi_out_cpu})
+
+def build(rng, idx, pattern, variant=None):
+    if pattern not in BUILDERS and pattern in EXTERNAL:
+        # families that live in their own modules (imported lazily)
+        import importlib
+
+        mod, fn = EXTERNAL[pattern]
+        BUILDERS[pattern] = getattr(importlib.import_module(mod), fn)
     return BUILDERS[pattern](rng, idx, variant)
